@@ -80,6 +80,9 @@ inductive SPC
   | intT2         -- first interrupt: notice printed; next `last_intr = time(NULL)`
   | listLock      -- `_list_slowthreads`: next lock(thd_mutex)
   | listing (k : Nat)   -- holds thd_mutex, `k` calls of time() (one per listed host) to go
+  | printing (k : Nat)  -- thd_mutex released with `k + 1` calls of time() still to go: the listing is printed from a
+                        --   snapshot taken under the mutex (both disciplines are accepted: print while locked = unlock
+                        --   at `listing 0`; copy, unlock, print = unlock at `listing l.length`; and every mixture)
   | abLock        -- abort (batch, or second ^C): `_fwd_signal(SIGINT)`: next lock(thd_mutex)
   | fwding (k : Nat)    -- holds thd_mutex, slots < k scanned
   | exiting       -- next: errx → exit(1)
@@ -334,6 +337,8 @@ def sStep (s : St) : SAct → Option St
         | .intT => some { s with spc := if s.now - s.last > INTR then .intT2 else .abLock }
         | .intT2 => some { s with last := s.now, spc := .listLock }
         | .listing (k + 1) => some { s with spc := .listing k }
+        | .printing (k + 1) => some { s with spc := .printing k }
+        | .printing 0 => some { s with spc := .waiting }
         | .tstpT => some { s with spc := if s.now - s.last > INTR then .stopping else .cancLock }
         | _ => none
       else none
@@ -351,6 +356,7 @@ def sStep (s : St) : SAct → Option St
       | _ => none
   | .unlockT => match s.spc with
       | .listing 0 => some { s with thd := .none, spc := .waiting }
+      | .listing (k + 1) => some { s with thd := .none, spc := .printing k }
       | .fwding k => if noReading s.ts k s.ts.length then some { s with thd := .none, spc := .exiting } else none
       | _ => none
   | .lock => match s.own, s.spc with
